@@ -46,7 +46,22 @@ CfgN1(ck, spr) ==
    comm |-> <<CommOf(ck), CommOf(ck), CommOf("zero"), CommOf("zero"), CommOf("zero")>>,
    integer |-> TRUE, bidoffer |-> TRUE, D |-> 100000, DW |-> 200000, paper |-> FALSE]
 
-C == CASE Which = "F2zero"  -> CfgF2("zero", 0, 1)
+\* FI: fixed-income root {coupon-paying a, fixed-income b, hedge h}
+CfgFI(ck) ==
+  [N |-> 4, kind |-> <<"strat", "cpsec", "fisec", "hedge">>, par |-> <<1, 1, 1, 1>>,
+   kids |-> <<<<2, 3, 4>>, <<>>, <<>>, <<>>>>, mult |-> <<One, One, One, One>>,
+   fi |-> <<TRUE, TRUE, FALSE, FALSE>>, T |-> 3,
+   px |-> <<NoTab, Px3(100, 98, 101), Px3(100, 100, 95), Px3(50, 52, 49)>>,
+   spread |-> <<NoTab, Z3, Z3, Z3>>,
+   coupon |-> <<NoTab, <<Rat(1, 2), Zero, R(1)>>, Z3, Z3>>,
+   costl |-> <<NoTab, <<Rat(1, 10), Rat(1, 10), Zero>>, <<NaN, NaN, NaN>>, <<NaN, NaN, NaN>>>>,
+   costs |-> <<NoTab, <<Rat(1, 5), Zero, Rat(1, 5)>>, <<NaN, NaN, NaN>>, <<NaN, NaN, NaN>>>>,
+   comm |-> <<CommOf(ck), CommOf("zero"), CommOf("zero"), CommOf("zero")>>,
+   integer |-> TRUE, bidoffer |-> FALSE, D |-> 100000, DW |-> 200000, paper |-> FALSE]
+
+C == CASE Which = "FIzero"  -> CfgFI("zero")
+       [] Which = "FIfix"   -> CfgFI("fix")
+       [] Which = "F2zero"  -> CfgF2("zero", 0, 1)
        [] Which = "F2fix"   -> CfgF2("fix", 2, 2)
        [] Which = "F2tier"  -> CfgF2("tier", 2, 1)
        [] Which = "F2unit"  -> CfgF2("unit", 0, 2)
@@ -89,7 +104,12 @@ DoClose ==
 DoFlatten ==
   \E s \in Strats(C) : SubTradable(s) /\ st.fresh /\ Step(FlattenOp(C, R0(st), s), "flatten")
 
-Trade == DoAllocate \/ DoRebalance \/ DoClose \/ DoFlatten
+DoTransact ==
+  \E x \in Secs(C), q \in {R(10), R(-4)}, u \in BOOLEAN :
+     /\ C.fi[Root] /\ Tradable(x)
+     /\ Step(TransactOp(C, R0(st), x, q, NaN, u), "transact")
+Trade == IF C.fi[Root] THEN DoTransact \/ DoRebalance \/ DoClose \/ DoFlatten
+         ELSE DoAllocate \/ DoRebalance \/ DoClose \/ DoFlatten
 Next ==
   \/ ops < MaxOps /\ ~st.bankrupt /\ (DoAdjust \/ (st.t > 0 /\ Trade))
   \/ ops < MaxOps /\ DoRefresh
@@ -143,6 +163,18 @@ Act_C16_Terminal    ==
 \* never flagged while value stayed non-negative: the flag is only set by RefreshR
 Act_C16_OnlyWhenNegative ==
   [][(~st.bankrupt /\ st'.bankrupt) => RSign(Val(C, st', Root)) \in {-1, 0, 1}]_vars
+
+\* C17: notional per node kind; the strategy's notional is the sum of absolute
+\* child notionals; accruals are what the end-of-day position earns
+Inv_C17_Notional ==
+  (C.fi[Root] /\ st.fresh /\ st.t > 0) =>
+     /\ st.snotl[Root] = RSumSeq([i \in 1..Len(C.kids[Root]) |-> RAbs(st.snotl[C.kids[Root][i]])])
+     /\ \A x \in Secs(C) :
+           /\ C.kind[x] \in {"cpsec", "fisec"} => st.snotl[x] = st.pos[x]
+           /\ C.kind[x] \in {"hedge", "cphedge"} => st.snotl[x] = Zero
+           /\ C.kind[x] = "sec" => st.snotl[x] = st.sval[x]
+           /\ IsCpn(C, x) => st.accr[x] = RSub(st.cpn[x], st.hc[x])
+     /\ ~st.bankrupt
 
 \* C08: a same-date update of a fresh state changes nothing
 Act_C08_RefreshIdempotent ==
